@@ -1,7 +1,7 @@
 (* C11 — valid queries parse to the structure they denote; invalid ones are rejected; parsing
    never panics.  Statements only. *)
 From Coq Require Import Permutation.
-From DT Require Import Lib.Bytes Lib.Split Gen.Consts Model.C11_Query Proofs.C11_Query Proofs.C11_Surface Proofs.C11_Order.
+From DT Require Import Lib.Bytes Lib.Split Gen.Consts Model.C11_Query Proofs.C11_Query Proofs.C11_Surface Proofs.C11_Order Proofs.C11_Denote.
 
 (* Parsing never panics: for every query text and every behaviour of strconv's ParseFloat / Atoi,
    NewQuery returns (nil,nil) for the empty string, an error, or a query - every slice and index
@@ -46,12 +46,50 @@ Theorem C11_clause_order : forall is_float atoi (cs cs' : list cl) (q : query) (
 Proof. exact clause_order. Qed.
 Print Assumptions C11_clause_order.
 
-(* What is still NOT proved of the round trip: that the structure obtained is the one the query denotes
-   (this direction, the quoting variants and the rejection of malformed families are decided by the
-   correspondence check, which renders random abstract queries in random clause orders, keyword cases,
-   separator styles and quotings, mutates them, and compares every parsed field of mapr.NewQuery with this
-   model and with an independent denotation).  Proved: totality, keyword case-insensitivity, separator
-   invariance, clause-order invariance. *)
+(* Valid clauses parse to what they denote.  (1) The parsed query is the initial query with the updates
+   of its clauses applied in order; (2) per clause kind, the update computed from a canonical rendering:
+   the select list (aggregations op(field) and bare fields), the table (upper-cased), where conditions
+   joined by "and" (operator from the operator table, operand types as NewQuery assigns them), group [by],
+   order / rorder [by], limit and interval (through Atoi). *)
+Theorem C11_denote : forall is_float atoi (cs : list cl) (q : query) (f : nat),
+  Forall wf_clause cs -> all_ok is_float atoi cs -> length (toks cs) < f ->
+  parse_tokens is_float atoi f q (toks cs) = ROk (apply_all q (upds is_float atoi cs)).
+Proof. exact parse_denotes. Qed.
+Print Assumptions C11_denote.
+
+Theorem C11_denote_select : forall is_float atoi items, Forall sitem_ok items -> Forall simple (map sitem_tok items) ->
+  eff is_float atoi (B"select") (map sitem_tok items) = ROk ([], USelect (map sitem_den items)).
+Proof. exact select_denotes. Qed.
+Theorem C11_denote_from : forall is_float atoi t, simple t ->
+  eff is_float atoi (B"from") [t] = ROk ([], UTable (upper (t_str t))).
+Proof. exact from_denotes. Qed.
+Theorem C11_denote_where : forall is_float atoi ws, ws <> [] -> Forall witem_ok ws -> Forall simple (wtoks ws) ->
+  (forall l o r, In (l, o, r) ws -> bytes_eqb (lower (t_str l)) (lower (B"and")) = false) ->
+  eff is_float atoi (B"where") (wtoks ws) = ROk ([], UWhere (map (witem_den is_float) ws)).
+Proof. exact where_denotes. Qed.
+Theorem C11_denote_group : forall is_float atoi (by_given : bool) flds, flds <> [] -> Forall simple flds ->
+  (forall t, nth_error flds 0 = Some t -> bytes_eqb (lower (t_str t)) (lower (B"by")) = false) ->
+  eff is_float atoi (B"group") ((if by_given then [bare_tok (B"by")] else []) ++ flds) =
+  ROk ([], UGroup (map t_str flds) (join_with x2c (map t_str flds))).
+Proof. exact group_denotes. Qed.
+Theorem C11_denote_order : forall is_float atoi (rev by_given : bool) t, simple t ->
+  bytes_eqb (lower (t_str t)) (lower (B"by")) = false ->
+  eff is_float atoi (if rev then B"rorder" else B"order") ((if by_given then [bare_tok (B"by")] else []) ++ [t]) =
+  ROk ([], UOrder (t_str t) rev).
+Proof. exact order_denotes. Qed.
+Theorem C11_denote_limit : forall is_float atoi t z, simple t -> atoi (t_str t) = Some z ->
+  eff is_float atoi (B"limit") [t] = ROk ([], ULimit z).
+Proof. exact limit_denotes. Qed.
+Theorem C11_denote_interval : forall is_float atoi t z, simple t -> atoi (t_str t) = Some z ->
+  eff is_float atoi (B"interval") [t] = ROk ([], UInterval z).
+Proof. exact interval_denotes. Qed.
+Print Assumptions C11_denote_where.
+
+(* What is still NOT proved of the round trip: the quoting variants (double-quoted operands, back-quoted
+   field names), the set clause with its function stacks, outfile / logformat, the post-checks of [finish],
+   and the rejection of malformed families; these are decided by the correspondence check, which renders
+   random abstract queries in random clause orders, keyword cases, separator styles and quotings, mutates
+   them, and compares every parsed field of mapr.NewQuery with this model and an independent denotation. *)
 Example C11_example :
   let text := B"SeLeCt count(x),`avg(y)`  from stats WHERE a >= 2.5 and ""s t"" eq b group by h rorder by count(x) limit 10" in
   match new_query (fun s => bytes_eqb s (B"2.5")) (fun s => if bytes_eqb s (B"10") then Some 10%Z else None) text with
@@ -79,4 +117,14 @@ Proof.
   - eapply perm_trans; [apply Permutation_rev|]. cbn [rev app].
     apply perm_skip. apply perm_skip. apply perm_swap.
   - split; [vm_compute; repeat constructor; cbn; intuition discriminate|vm_compute; repeat split; reflexivity].
+Qed.
+
+Example C11_denote_example :
+  let items := [SAgg ACount (B"x"); SField (B"host")] in
+  Forall sitem_ok items /\ Forall simple (map sitem_tok items)
+  /\ map s_storage (map sitem_den items) = [B"count(x)"; B"host"] /\ map s_op (map sitem_den items) = [ACount; ALast].
+Proof.
+  cbv zeta. split; [|split; [|split; reflexivity]].
+  - repeat constructor; cbn; intuition discriminate.
+  - repeat constructor; try (vm_compute; reflexivity); cbn; discriminate.
 Qed.
